@@ -758,6 +758,7 @@ Proof.
     destruct (validate Subst (SList es ty len mnl mxl) [] v); [|reflexivity]. cbn [map].
     destruct v; try reflexivity.
     destruct (negb (Nat.eqb (length l) 0) && forallb is_vell l); [reflexivity|].
+    destruct (existsb is_vell (removelast (tl l))); [reflexivity|].
     destruct ty as [t|]; cbn [erase_opt].
     + (* typed *)
       specialize (IHty t eq_refl).
